@@ -10,7 +10,7 @@ def run(ctx):
 
     crosscheck_sym.guard(ctx)  # the symbolic-shape tensor layer against real torch, before the clause that rests on it
     api.run_vcs(ctx, C09_vc.pad_p_vcs(ctx), {"C09.P.pad_variable": "real pad_variable source (constant mode) for a SYMBOLIC batch size, extent, feature size, lengths and pad amounts: every sequence is copied behind its left padding, every other cell holds the padding value, the output extent is the longest padded sequence (row-major compaction contracts of masked_select / masked_scatter; three inductions over coefficients, frames and sequences)"})
-    api.run_vcs(ctx, C09_vc.chunk_p_vcs(ctx), {"C09.P.chunk_by_slices": "real chunk_by_slices source (constant mode, lengths given) for a SYMBOLIC batch size, extent, feature size, lengths and ARBITRARY slice bounds: reported length = max(end - start, 0); the chunk is the slice of the constant-padded sequence (entries inside the sequence copied, the padding value elsewhere and beyond the reported length)"})
+    api.run_vcs(ctx, C09_vc.chunk_p_vcs(ctx), {"C09.P.chunk_by_slices": "real chunk_by_slices source (constant and replicate mode, lengths given) for a SYMBOLIC batch size, extent, feature size, lengths and ARBITRARY slice bounds: reported length = max(end - start, 0); the chunk is the slice of the constant- resp. replicate-padded sequence (entries inside the sequence copied, the padding value elsewhere and beyond the reported length)"})
     api.run_vcs(ctx, C09_vc.masked_p_vcs(ctx), {"C09.P.pad_masked_sequence": "real pad_masked_sequence source for a SYMBOLIC batch size, extent, feature size and ANY mask, both layouts: reported length = number of selected frames; every selected frame lands at the position given by the number of selected frames before it; the padding value from the reported length on"})
     api.run_vcs(ctx, C09_vc.p_vcs(ctx), {"C09.P.shift_amounts": "real random_shift source for a symbolic length and symbolic proportions: each side is padded by a non-negative whole number of elements below proportion x length, reported length = length + both, padding delegated to pad_variable with the same input / lengths / mode / value, identity in evaluation mode"})
     api.run_vcs(ctx, C09_vc.vcs(ctx), {"C09.S.masked_compaction": "real pad_masked_sequence source: lens = selected count; row = selected elements in order then the padding value; all contents and all masks"},
